@@ -427,3 +427,9 @@ MUTANTS += [
     ('M85', CO, "pub const TOUCH_ONLY: f32 = 0.0;", "pub const TOUCH_ONLY: f32 = 0.001;", 'C10', None, 'touch-only distance 1 mm'),
     ('M86', K, "const ANGULAR_TOLERANCE: f64 = 1E-6;", "const ANGULAR_TOLERANCE: f64 = 1E-5;", 'C01', None, 'angular tolerance 10 microradians'),
 ]
+
+_KWS_NEW_OLD = "        KinematicsWithShape {\n            kinematics: Arc::new(Self::create_robot_with_base_and_tool(\n                base_transform,\n                tool_transform,\n                opw_parameters,\n                constraints,\n            )),\n            body: RobotBody {\n                joint_meshes,\n                base: Some(BaseBody {\n                    mesh: base_mesh,\n                    base_pose: base_transform.cast(),\n                }),\n                tool: Some(tool_mesh),\n                collision_environment,\n                safety: SafetyDistances::standard(\n                    if first_collision_only {\n                        CheckMode::FirstCollisionOnly\n                    } else {\n                        CheckMode::AllCollsions\n                    }),\n            },\n        }\n    }"
+_KWS_NEW_DELEG = "        Self::with_safety(\n            opw_parameters,\n            constraints,\n            joint_meshes,\n            base_mesh,\n            base_transform,\n            tool_mesh,\n            tool_transform,\n            collision_environment,\n            SafetyDistances::standard(if first_collision_only {\n                CheckMode::FirstCollisionOnly\n            } else {\n                CheckMode::AllCollsions\n            }),\n        )\n    }"
+KEEP += [
+    ('K106', W, _KWS_NEW_OLD, _KWS_NEW_DELEG, ['C11', 'C09'], 'KinematicsWithShape::new delegates to with_safety, arguments in order'),
+]
